@@ -2,7 +2,8 @@
 EXTENDS QuakeText
 MCKv == {"\\", "a", "b"}
 MCPl == {" ", "\"", "a", "1", "-"}
+\* "#" stands for a two-byte character (é): TLC mangles non-ASCII string literals, the harness substitutes it
 MCRest == {" ", "\"", "a"}
-MCRestT == {" ", "\"", "a", "é"}
-MCPlT == {" ", "\"", "a", "1", "-", "é"}
+MCRestT == {" ", "\"", "a", "#"}
+MCPlT == {" ", "\"", "a", "1", "-", "#"}
 =============================================================================
